@@ -53,6 +53,25 @@ Definition additive (pc : pchange) : bool :=
   | _, _ => false
   end.
 
+(** DROP TABLE n is not refused in state [d] for the foreign keys of *other* tables: enforcement
+    is off, or no ON DELETE action of a table referencing [n] is uncompilable
+    (EngineModel.drop_blocked: with foreign_keys on, SQLite refuses to drop a table when a table
+    referencing it with CASCADE / SET NULL / SET DEFAULT itself references a missing table). *)
+Definition droppable (d : db) (n : str) : bool :=
+  negb (db_fk d) || negb (drop_blocked n (db_tables d)).
+
+(** every table a change list creates is [droppable] in the state right after its creation *)
+Fixpoint droppable_along (d : db) (l : list pchange) : Prop :=
+  match l with
+  | [] => True
+  | pc :: l' =>
+      forall dm, exec d (pc_cmd pc) = EngineModel.Ok dm ->
+        match pc_cmd pc with
+        | SCreateTable x _ => droppable dm (t_name (x_t x)) = true
+        | _ => True
+        end /\ droppable_along dm l'
+  end.
+
 (** a change list without DropTable and without DropIndex: every reversible plan of such a list
     consists of [additive] changes only *)
 Definition no_drop_sub (c : change) : bool :=
@@ -118,15 +137,14 @@ Definition sim (d a : db) : Prop :=
 
 (** the condition under which the planner's reverse of DROP INDEX n is faithful at state [d]:
     table [t] of [d] holds an index [j] called [n] that inspects like [i]; [n] can be created
-    again (not empty, not reserved), the parts of [i] are columns of [t] or expressions, and the rows of [t] do not break [i] when it is UNIQUE
+    again ([index_def_ok]: name not empty and not reserved, parts columns of [t] or expressions), and the rows of [t] do not break [i] when it is UNIQUE
     (SQLite guarantees that of an existing unique index; the abstract engine keeps no such
     invariant, so it is stated). *)
 Definition faithful_idx (d : db) (n t : str) (i : index) : Prop :=
   exists ct j,
     find_ct t (db_tables d) = Some ct /\ In j (ct_idx ct) /\ i_name j = n /\
     inspect_index j = inspect_index i /\
-    n <> [] /\ reserved_name n = false /\
-    i_parts i <> [] /\ first_err (part_ok_b (ct_t ct)) (i_parts i) = EngineModel.Ok tt /\
+    index_def_ok (ct_t ct) i = EngineModel.Ok tt /\
     match i_unique i, i_pred i, part_col_names (i_parts i) with
     | true, None, Some cols => has_dup_on cols (ct_rows ct) = false
     | _, _, _ => True
@@ -140,7 +158,25 @@ Fixpoint arms_ok (d : db) (l : list pchange) : Prop :=
   match l with
   | [] => True
   | pc :: l' =>
-      ((additive pc = true /\ stmt_wf (pc_cmd pc) = true) \/
+      ((additive pc = true /\ stmt_wf (pc_cmd pc) = true /\
+        forall dm, exec d (pc_cmd pc) = EngineModel.Ok dm ->
+          match pc_cmd pc with SCreateTable x _ => droppable dm (t_name (x_t x)) = true | _ => True end) \/
        (exists n t i, drop_index_arm pc = Some (n, t, i) /\ faithful_idx d n t i)) /\
       forall dm, exec d (pc_cmd pc) = EngineModel.Ok dm -> arms_ok dm l'
+  end.
+
+(** a change list without DropTable (DropIndex allowed) *)
+Definition no_drop_table (cs : list schange) : bool :=
+  forallb (fun c => match c with DropTable _ => false | _ => true end) cs.
+
+(** the state-dependent conditions of a planned change list, each at the state its change
+    executes in: the reverse of a DROP INDEX is faithful, a created table can be dropped again *)
+Fixpoint conds (d : db) (l : list pchange) : Prop :=
+  match l with
+  | [] => True
+  | pc :: l' =>
+      match drop_index_arm pc with Some (n, t, i) => faithful_idx d n t i | None => True end /\
+      forall dm, exec d (pc_cmd pc) = EngineModel.Ok dm ->
+        match pc_cmd pc with SCreateTable x _ => droppable dm (t_name (x_t x)) = true | _ => True end /\
+        conds dm l'
   end.
